@@ -13,7 +13,7 @@ import numpy as np
 import z3
 
 from symx import smt, harness, load, rotation, stubs
-from symx.arrays import to_symarray
+from symx.arrays import to_symarray, _obj
 from symx.core import Sym, explore, integer, lift, real, _real, _coerce
 
 from .common import TRUSTED, fl, frac, quick, select
@@ -170,6 +170,17 @@ def _replay_sampling(order, shape, corner_safe, quat=None):
             out = ld.load(0)
         except Exception as e:
             return None, {"error": repr(e)}
+        if cex.get("__twice__"):
+            # the same loader used twice, scale 1.0 and the counterexample's scale: same sub-volume, positions untouched
+            probs = {}
+            for sc in (1.0, scale):
+                p0 = np.array([[7.3, 8.1, 6.6]]) * sc
+                l2 = SubtomogramLoader(np.asarray(img[:24, :24, :24] if min(img.shape) >= 24 else np.random.default_rng(0).normal(size=(24, 24, 24))), Molecules(p0.copy(), rot), order=order, scale=sc, output_shape=shp, corner_safe=corner_safe)
+                a1 = np.asarray(l2.load(0))
+                a2 = np.asarray(l2.load(0))
+                if not np.allclose(l2.molecules.pos, p0) or not np.allclose(a1, a2, equal_nan=True):
+                    probs[f"scale={sc}"] = {"pos_after": np.asarray(l2.molecules.pos).round(4).tolist(), "pos_before": p0.round(4).tolist(), "second_load_differs_by": float(np.nanmax(np.abs(a1 - a2)))}
+            return len(probs) > 0, {"loader_used_twice": probs}
         if np.isnan(out).any():
             return True, {"nan_voxels": int(np.isnan(out).sum()), "of": int(out.size), "pos": pos.tolist(), "scale": scale,
                           "shape": shp, "tomogram": size, "order": order}
@@ -234,7 +245,8 @@ def sec_sampling(rec, order=1, corner_safe=False, patches=None, free_axis=None, 
         tasks = ld.construct_loading_tasks(backend=xp)
         if len(tasks) != 1:
             raise AssertionError("one molecule must give one task")
-        return tasks[0].compute()
+        out = tasks[0].compute()
+        return out, _obj(ld.molecules.pos).copy()
 
     paths = explore(run, assumptions=hyps, max_paths=4000)
     o = [z3.Real(f"o{i}") for i in range(3)]
@@ -266,7 +278,10 @@ def sec_sampling(rec, order=1, corner_safe=False, patches=None, free_axis=None, 
                       key="C02/sampling/overlapping-window-rejected", names=names, replay=rp)
             continue
         n_ok += 1
-        r = p.result
+        r, pos_after = p.result
+        # loading does not modify the molecules it is given (a loader is used more than once: average, then alignment, ...)
+        same = pos_after.shape == (1, 3) and all(z3.eq(z3.simplify(zi(pos_after[0, a])), z3.simplify(pos[a].e)) or smt.prove(h, _real(zi(pos_after[0, a])) == pos[a].e).status == "holds" for a in range(3))
+        rec.fact(f"{tag}/path{i}/molecule-positions-not-modified", bool(same), key="C02/sampling/molecules-modified", detail={"pos_after": repr(pos_after.tolist())[:200]}, reproduced=True if same else rp({"__twice__": True})[0])
         if isinstance(r, stubs.ImgStub):
             # the task is a plain crop of the tomogram: voxel o of the result is tomogram voxel o + origin, i.e. sampling with the identity matrix
             okshape = len(r.shape) == 3 and all(z3.is_true(z3.simplify(zi(x) == zi(y))) or smt.prove(h, zi(x) == zi(y)).status == "holds" for x, y in zip(r.shape, shp))
